@@ -459,3 +459,46 @@ def iter1(ctx) -> List[Ob]:
             else:
                 out.append(bad("ITER-1", fn.qualname, key, ctx.where(fn, w), f"the hierarchy walk does not descend into regions (yield from <region>.subregion) or does not continue at the block's jump targets ({ext_args})"))
     return out
+
+
+@rule("TOTAL-7", 3, "no walk over the blocks of a graph is recursive: recursion reachable from restructure() follows the region nesting only (audited), never the length of a path")
+def total7(ctx) -> List[Ob]:
+    out: List[Ob] = []
+    cg = ctx.cg
+    reach = cg.reachable_from(ctx.entry_points("restructure"))
+    # strongly connected components of the call graph restricted to reach (self loops included)
+    fns = sorted(reach, key=lambda f: f.qualname)
+    idx = {f: i for i, f in enumerate(fns)}
+    reach_from = {}
+    for f in fns:
+        seen = set()
+        stack = list(cg.edges.get(f, ()))
+        while stack:
+            g = stack.pop()
+            if g in seen or g not in idx:
+                continue
+            seen.add(g)
+            stack.extend(cg.edges.get(g, ()))
+        reach_from[f] = seen
+    for f in fns:
+        if f in reach_from[f]:
+            cyc_f = [g for g in reach_from[f] if f in reach_from.get(g, ())]
+            cyc = sorted(g.qualname for g in cyc_f)
+            key = "recursive: " + f.qualname
+            # recursion that descends the region hierarchy: every call back into the cycle goes through
+            # `.subregion` / `.parent_region`, or sits under an isinstance(.., RegionBlock) test
+            sites = [s_ for s_ in cg.sites.get(f, []) if isinstance(s_.node, (ast.Call, ast.YieldFrom)) and any(c in cyc_f for c in s_.callees)]
+            def nested(site) -> bool:
+                txt = A.unparse(site.node)
+                if ".subregion" in txt or ".parent_region" in txt:
+                    return True
+                for anc in A.ancestors(site.node):
+                    if isinstance(anc, ast.If) and "RegionBlock" in A.unparse(anc.test):
+                        return True
+                return False
+            if sites and all(nested(s_) for s_ in sites):
+                out.append(ok("TOTAL-7", f.qualname, key, ctx.where(f), f"recursion follows the region nesting ({len(sites)} call site(s) through .subregion / a RegionBlock test): depth = nesting depth"))
+                continue
+            out.append(bad("TOTAL-7", f.qualname, key, ctx.where(f), f"{f.qualname} is (mutually) recursive ({', '.join(cyc[:4])}): the recursion depth grows with the input (RecursionError on long chains of blocks) unless it follows the region nesting"))
+    out.append(ok("TOTAL-7", "<module>", "recursion census", "numba_scfg:1", f"{len(fns)} functions reachable from restructure() examined", nontrivial=False))
+    return out
